@@ -16,8 +16,9 @@ import (
 // barrier the provider has seen the last content of every file written before it. No clock is
 // involved; the time limit only turns a dead test bed into an infrastructure failure.
 //
-// The previous sentinel is removed afterwards (its only notification has been handled, nothing
-// is reading it any more).
+// An older sentinel (the last but one) is removed afterwards: its only notification was handled
+// long ago, nothing is reading it any more (heimdall can terminate when a file vanishes while the
+// provider is loading it, see HeimdallGen.tla).
 func (e *Env) barrier() error {
 	e.barrierMu.Lock()
 	defer e.barrierMu.Unlock()
@@ -55,8 +56,8 @@ func (e *Env) barrier() error {
 		time.Sleep(200 * time.Microsecond)
 	}
 
-	if n > 1 {
-		_ = os.Remove(filepath.Join(e.rulesDir, fmt.Sprintf("zz-sync%d.yaml", n-1)))
+	if n > 2 {
+		_ = os.Remove(filepath.Join(e.rulesDir, fmt.Sprintf("zz-sync%d.yaml", n-2)))
 	}
 
 	return nil
